@@ -34,7 +34,30 @@ def specs(tier, rng):
     return out
 
 
+def collision_programs():
+    """values of different type with the same payload bits must stay distinct wherever values are compared or shared: the
+    constant pool shares equal constants, so for every function of a program its descriptor (entry, slots) is read from the
+    compiled constants and the program is extended with the integer literal whose payload equals it (and neighbours)"""
+    import re
+    bases = ["functie f(a) { a };", "functie f() { 1 }; functie g(a, b) { stel c = a; c + b };", "stel h = functie(x) { x * 2 };",
+             "stel pad = 123456; functie f(a) { a + pad };"]
+    out = []
+    ans = core.impl(["compile " + core.hx(b + " 0") for b in bases])
+    for b, a in zip(bases, ans):
+        for ip, n in re.findall(r"fn:(\d+):(\d+)", a):
+            k = int(ip) * 65536 + int(n)
+            names = re.findall(r"functie (\w+)\(", b) + re.findall(r"stel (\w+) = functie", b)
+            f = names[0] if names else "f"
+            for lit in (k, k + 1, k - 1):
+                out.append("%s [type(%d), %d + 1, type(%s), %d == %d]" % (b, lit, lit, f, lit, lit))
+                out.append("%d; %s type(%s)" % (lit, b, f))
+                out.append("%s stel q = %d; [q, %s == %s]" % (b, lit, f, f))
+    return out
+
+
 def run(res, tier, rng, table_diffs=()):
+    from .common_diff import run_cases
+    run_cases(res, "C15", [("collision", p) for p in collision_programs()])
     sp = specs(tier, rng)
     reqs = ["obj enc " + s for s in sp]
     # arrays
